@@ -252,6 +252,11 @@ var c03Templates = []sim.Template{
 			for _, rt := range []string{world.PathLockNotOK, world.PathConfirmNotOK + "?from=x", "/", s.Cfg.Mount + "/app/page"} {
 				out = append(out, act("visit", b, -9, "", "route", rt, "method", pickS(s.R, "GET", "GET", "POST", "HEAD")))
 			}
+			// a cross-origin script's preflight and other shapes a browser sends of its own accord: the guard is about
+			// who the session user is, not about the dressing of the request
+			out = append(out, act("visit", b, -9, "", "route", "/protected/lockonly", "method", "OPTIONS", "hdr", "Access-Control-Request-Method: POST|Origin: https://other.example"),
+				act("visit", b, -9, "", "route", "/protected/confirmonly", "method", "OPTIONS", "hdr", "Access-Control-Request-Method: GET|Origin: https://other.example"),
+				act("visit", b, -9, "", "route", "/protected/plain", "method", "OPTIONS", "hdr", "Access-Control-Request-Method: DELETE|Access-Control-Request-Headers: x-csrf|Origin: null"))
 			return out
 		}
 		if s.Cfg.Has("lock") {
